@@ -16,6 +16,11 @@
 (*         <<>>), s sequence of C score ticks                              *)
 (*   clips sequence of sequences of item indices (cc/cml: one item each;   *)
 (*         sec/sed: the sound events of each clip, possibly none)          *)
+(*   extras sequence of [pos, side]: clips that are in ONE input only      *)
+(*         (side "pred": predicted but not annotated, "ann": annotated but *)
+(*         not predicted), placed after `pos` of the clips above (0 =      *)
+(*         first, Len(clips) = last).  They are not evaluated: the         *)
+(*         evaluated clips are those present in both inputs, i.e. `clips`. *)
 (*   style realisation variant for the binder (no meaning here)            *)
 (* Rationals are <<p, q>>, q > 0; every denominator stays below 32768.     *)
 (***************************************************************************)
@@ -217,6 +222,26 @@ TableTermNamesFunction(task, variant) ==
     LET t == Table(task, variant) IN
     \A lev \in {t.run, t.clip, t.ev} : \A i \in DOMAIN lev : MetricOfName(lev[i][1]) = lev[i][2]
 
+(* ---------------- which clips are evaluated ---------------- *)
+\* The two inputs as sequences of clip slots: k in 1..Len(clips) = the k-th clip of the case (in both inputs),
+\* 0 = a clip of this input only.  Req: the evaluated clips are exactly the clips present in both inputs,
+\* each once, whatever the order.  Impl (evaluation/tasks/common.py): walk the predictions, keep the annotated ones.
+FlattenSeq(ss) == LET F[k \in 0..Len(ss)] == IF k = 0 THEN <<>> ELSE F[k - 1] \o ss[k] IN F[Len(ss)]
+Extras(c) == IF "extras" \in DOMAIN c THEN c.extras ELSE <<>>
+InputOrder(c, side) ==
+    LET m == Len(c.clips)
+        here(p) == SelectSeq(Extras(c), LAMBDA e : e.pos = p /\ e.side = side)
+    IN  FlattenSeq([q \in 1..(m + 1) |-> [j \in 1..Len(here(q - 1)) |-> 0] \o (IF q <= m THEN <<q>> ELSE <<>>)])
+Reverse(s) == [i \in 1..Len(s) |-> s[Len(s) + 1 - i]]
+ReqEvaluated(c) == 1..Len(c.clips)
+ImplIterate(preds, anns) == SelectSeq(preds, LAMBDA k : k # 0 /\ \E j \in DOMAIN anns : anns[j] = k)
+ImplIterateRefinesReq(c) ==
+    \A rev \in BOOLEAN :
+        LET P == IF rev THEN Reverse(InputOrder(c, "pred")) ELSE InputOrder(c, "pred")
+            A == IF rev THEN Reverse(InputOrder(c, "ann")) ELSE InputOrder(c, "ann")
+            out == ImplIterate(P, A)
+        IN  Len(out) = Len(c.clips) /\ {out[i] : i \in DOMAIN out} = ReqEvaluated(c)
+
 (* ---------------- limb arithmetic on observed non-negative doubles ---------------- *)
 LAddMag(a, b) ==
     LET s6 == a[6] + b[6]       c6 == s6 \div B16
@@ -248,11 +273,19 @@ Accepts(a, v) ==
 (*    metrics <<[label, name, v]...>>, extra (clip evaluations of unknown  *)
 (*    clips), clips <<per abstract clip: [n, score, metrics, matches]>>]   *)
 (* a match is [item (0 = unknown), src, tgt, score, metrics].              *)
-(* fwd: clips in case order; rev: clip order reversed; aoef: fwd saved     *)
+(* fwd: clips (with the extras interleaved) in case order; rev: both input *)
+(* lists reversed; aoef: fwd saved                                         *)
 (* with soundevent.io.save and loaded again.                               *)
 (***************************************************************************)
-Clauses == {"Evaluates", "DistinctTerms", "ValueIsNamedMetric", "NoneClassHandling",
+Clauses == {"Evaluates", "EvaluatedClipsAreIntersection", "DistinctTerms", "ValueIsNamedMetric", "NoneClassHandling",
             "ScoresAreMeans", "OrderIndependent", "SurvivesAoef"}
+
+\* one clip evaluation for every clip present in both inputs (the binder maps clip evaluations to the clips of the
+\* case by uuid: n = how many for clip k, extra = how many for any other clip), none for a clip of one input only
+RunEvaluatesIntersection(c, r) ==
+    /\ r.extra = 0
+    /\ Len(r.clips) = Cardinality(ReqEvaluated(c))
+    /\ \A k \in DOMAIN r.clips : r.clips[k].n = 1
 
 ClipItems(c, k) == [j \in 1..Len(c.clips[k]) |-> c.items[c.clips[k][j]]]
 Returned(r) == r.raised = ""
@@ -319,6 +352,7 @@ SameRun(a, b, same(_, _)) ==
 Holds(cl, o) ==
     LET c == o.in  f == o.out.fwd  v == o.out.rev  a == o.out.aoef  rs == <<o.out.fwd, o.out.rev>> IN
     CASE cl = "Evaluates"          -> Returned(f) /\ Returned(v)
+      [] cl = "EvaluatedClipsAreIntersection" -> \A ri \in 1..2 : Returned(rs[ri]) => RunEvaluatesIntersection(c, rs[ri])
       [] cl = "DistinctTerms"      -> (Returned(f) => RunDistinct(f)) /\ (Returned(v) => RunDistinct(v))
       [] cl = "ValueIsNamedMetric" -> \A ri \in 1..2 : Returned(rs[ri]) => RunValues(c, rs[ri], LAMBDA mid : TRUE)
       [] cl = "NoneClassHandling"  -> HasUnlabelled(c) =>
